@@ -612,3 +612,70 @@ for _how, _id in (('NOTIN', 'negated-membership-tree'), ('TUPSPLIT', 'tuple-assi
                   ('RANGE0', 'range-from-zero-tree'), ('EMPTYLIT', 'empty-containers-by-call-tree')):
     for _p in ['C11', 'C12', 'C01', 'C02', 'C04', 'C05', 'C06', 'C07', 'C08', 'C09', 'C10', 'C13', 'C14', 'C15', 'C16', 'C18', 'C19', 'C20']:
         MUTANTS.append({'prop': _p, 'id': _id, 'kind': 'T', 'edits': _how})
+
+# ------------------------------------------------------------------ round 7: the rules added for its pairs
+_JT7 = 'src/mbi/junction_tree.py'
+_AG7 = 'mechanisms/adaptive_grid.py'
+_MECH7 = 'mechanisms/mechanism.py'
+_CDP7 = 'mechanisms/cdp2adp.py'
+_MST7 = 'mechanisms/mst.py'
+K('C15', 'datavector-bincount-without-minlength', [(DS, "        bins = [range(n+1) for n in self.domain.shape]\n",
+                                                    "        if len(self.domain) == 1:\n            return np.bincount(self.df.values[:,0].astype(int), self.weights).astype(float)\n        bins = [range(n+1) for n in self.domain.shape]\n")], 'histogram')
+T('C15', 'datavector-bincount-with-minlength', [(DS, "        bins = [range(n+1) for n in self.domain.shape]\n",
+                                                 "        if len(self.domain) == 1:\n            return np.bincount(self.df.values[:,0].astype(int), self.weights, self.domain.size()).astype(float)\n        bins = [range(n+1) for n in self.domain.shape]\n")])
+K('C15', 'canonical-sorted-positions-of-a-generator', [(DOM, "        return tuple(a for a in self.attrs if a in attrs)",
+                                                        "        axes = (self.attrs.index(a) for a in attrs if a in self.config)\n        return tuple(self.attrs[i] for i in sorted(axes))")], 'order-filter')
+T('C15', 'canonical-sorted-positions-of-a-set', [(DOM, "        return tuple(a for a in self.attrs if a in attrs)",
+                                                  "        axes = {self.attrs.index(a) for a in attrs if a in self.config}\n        return tuple(self.attrs[i] for i in sorted(axes))")])
+K('C20', 'adagrid-em-parameters-reordered', [(_AG7, "def exponential_mechanism(q, eps, sensitivity, prng=np.random, monotonic=False):",
+                                              "def exponential_mechanism(q, eps, sensitivity, monotonic=False, prng=np.random):")], 'signature-order')
+T('C20', 'adagrid-em-sensitivity-default', [(_AG7, "def exponential_mechanism(q, eps, sensitivity, prng=np.random, monotonic=False):",
+                                             "def exponential_mechanism(q, eps, sensitivity=1.0, prng=np.random, monotonic=False):")])
+K('C01', 'greedy-order-on-the-stored-list', [(_JT7, "        self.graph = self._make_graph()\n", "        self.graph = self._make_graph()\n        self._attrs = list(domain.attrs)\n"),
+                                             (_JT7, "        unmarked = list(domain.attrs)\n", "        unmarked = self._attrs\n")], 'tree-state-unchanged')
+T('C01', 'greedy-order-on-a-copy-of-the-stored-list', [(_JT7, "        self.graph = self._make_graph()\n", "        self.graph = self._make_graph()\n        self._attrs = list(domain.attrs)\n"),
+                                                       (_JT7, "        unmarked = list(domain.attrs)\n", "        unmarked = list(self._attrs)\n")])
+K('C11', 'greedy-order-on-the-stored-list', [(_JT7, "        self.graph = self._make_graph()\n", "        self.graph = self._make_graph()\n        self._attrs = list(domain.attrs)\n"),
+                                             (_JT7, "        unmarked = list(domain.attrs)\n", "        unmarked = self._attrs\n")], 'order-complete')
+K('C02', 'pairs-by-distance-unsorted', [(GM, "        for Ci,Cj in sorted(itertools.combinations(self.cliques,2),key=lambda X:dist[X[0]][X[1]]):",
+                                         "        for Ci,Cj in itertools.combinations(self.cliques,2):")], 'pair-schedule')
+K('C04', 'lipschitz-bucket-by-projection', [(INF, "        eigs = { cl : 0.0 for cl in self.model.cliques }", "        eigs = defaultdict(float)"),
+                                            (INF, "                    eigs[cl] += eig * n / p / noise**2", "                    eigs[proj] += eig * n / p / noise**2")], 'lipschitz-form')
+T('C04', 'lipschitz-buckets-default-to-zero', [(INF, "        eigs = { cl : 0.0 for cl in self.model.cliques }", "        eigs = defaultdict(float)")])
+K('C14', 'project-logsumexp-mode-sums', [(F, "            ans = self.logsumexp(marginalized.attrs)", "            ans = self.sum(marginalized.attrs)")], 'aggregation-mode')
+K('C02', 'datavector-reshaped-to-the-domain', [(GM, "        return ans.expand(self.domain).datavector(flatten) * wgt * self.total",
+                                                "        vals = ans.values.reshape(self.domain.shape) * self.total\n        return vals.flatten() if flatten else vals")], 'requested-order')
+T('C02', 'datavector-transposed-to-the-domain', [(GM, "        return ans.expand(self.domain).datavector(flatten) * wgt * self.total",
+                                                  "        vals = ans.transpose(self.domain.attrs).values * self.total\n        return vals.flatten() if flatten else vals")])
+K('C09', 'ones-vector-in-the-dtype-of-the-query', [(INF, "                o = np.ones(Q.shape[1])", "                o = np.ones(Q.shape[1], dtype=Q.dtype)")], 'ones-target')
+T('C09', 'ones-vector-explicitly-float', [(INF, "                o = np.ones(Q.shape[1])", "                o = np.ones(Q.shape[1], dtype=float)")])
+K('C19', 'result-exponentiated-into-the-start-vector', [(PI, "    return np.exp(logP)\n", "    return np.exp(logP, out=x0)\n")], 'weights-unshared')
+T('C19', 'result-exponentiated-in-place', [(PI, "    return np.exp(logP)\n", "    return np.exp(logP, out=logP)\n")])
+K('C16', 'region-graph-total-by-truthiness', [(RG, "total = 1.0,minimal=True", "total = None,minimal=True"), (RG, "        self.total = total\n", "        self.total = total or 1.0\n")], 'total-stored')
+T('C16', 'region-graph-total-none-default', [(RG, "total = 1.0,minimal=True", "total = None,minimal=True"), (RG, "        self.total = total\n", "        self.total = 1.0 if total is None else total\n")])
+K('C01', 'sweep-stops-before-the-universal-node', [(_JT7, "        for node in order:\n            tmp = set(itertools.combinations(G.neighbors(node), 2))",
+                                                    "        for node in order:\n            if G.degree(node) == G.number_of_nodes() - 1:\n                break\n            tmp = set(itertools.combinations(G.neighbors(node), 2))")], 'elimination-fill-in')
+T('C01', 'sweep-stops-after-the-universal-node', [(_JT7, "        for node in order:\n            tmp = set(itertools.combinations(G.neighbors(node), 2))",
+                                                   "        for node in order:\n            last = G.degree(node) == G.number_of_nodes() - 1\n            tmp = set(itertools.combinations(G.neighbors(node), 2))"),
+                                                  (_JT7, "            G.remove_node(node)\n", "            G.remove_node(node)\n            if last:\n                break\n")])
+K('C12', 'schedule-ranked-by-direct-prerequisites', [(_JT7, "        return list(nx.topological_sort(G)) ", "        return sorted(messages, key=lambda m: len(G.pred[m]))")], 'schedule')
+T('C12', 'schedule-ranked-by-ancestors', [(_JT7, "        return list(nx.topological_sort(G)) ", "        return sorted(messages, key=lambda m: len(nx.ancestors(G, m)))")])
+K('C07', 'order-bracket-narrowed-around-a-hint', [(_CDP7, "    amax=(eps+1)/(2*rho)+2\n", "    amax=(eps+1)/(2*rho)+2\n    hint=_HINT[0]\n    if hint is not None and amin<hint<amax:\n        if (2*hint-1)*rho-eps+math.log1p(-1.0/hint)<0:\n            amin=hint; amax=min(amax,2*hint)\n        else:\n            amax=hint\n"),
+                                                  (_CDP7, "def cdp_delta(rho,eps):", "_HINT=[None]\ndef cdp_delta(rho,eps):")], 'probe-step')
+T('C07', 'order-bracket-probed-at-a-hint', [(_CDP7, "    amax=(eps+1)/(2*rho)+2\n", "    amax=(eps+1)/(2*rho)+2\n    hint=_HINT[0]\n    if hint is not None and amin<hint<amax:\n        if (2*hint-1)*rho-eps+math.log1p(-1.0/hint)<0:\n            amin=hint\n        else:\n            amax=hint\n"),
+                                            (_CDP7, "def cdp_delta(rho,eps):", "_HINT=[None]\ndef cdp_delta(rho,eps):")])
+K('C19', 'metric-tested-before-its-default-is-resolved', [(PI, "        if metric is None:\n            metric = self.metric\n\n        if callable(metric):\n            return metric(marginals)\n",
+                                                           "        if callable(metric):\n            return metric(marginals)\n        if metric is None:\n            metric = self.metric\n")], 'loss-form')
+K('C05', 'mst-scores-against-a-private-baseline', [(_MST7, "        xhat = est.project([a, b]).datavector()", "        xhat = np.outer(data.project((a,)).datavector(), data.project((b,)).datavector()).flatten() / est.total")], 'typed-release')
+K('C05', 'adagrid-mask-before-the-permutation', [(_AG7, "def get_aggregate(cl, matrices, domain):", "def get_aggregate(cl, matrices, domain, mask):"),
+                                                 (_AG7, "        Q = sparse.kron(T, Qc) @ P\n", "        Q = sparse.kron(T, Qc) @ mask @ P\n"),
+                                                 (_AG7, "            Q2 = get_aggregate(cl, matrices, domain) @ (\n                I - Q1\n            )", "            Q2 = get_aggregate(cl, matrices, domain, I - Q1)"),
+                                                 (_AG7, "        Q2 = get_aggregate(cl, matrices, domain) @ (\n            I - Q1\n        )", "        Q2 = get_aggregate(cl, matrices, domain, I - Q1)")], 'unit-sensitivity')
+T('C05', 'adagrid-mask-inside-the-helper', [(_AG7, "def get_aggregate(cl, matrices, domain):", "def get_aggregate(cl, matrices, domain, mask):"),
+                                            (_AG7, "        Q = sparse.kron(T, Qc) @ P\n", "        Q = sparse.kron(T, Qc) @ P @ mask\n"),
+                                            (_AG7, "            Q2 = get_aggregate(cl, matrices, domain) @ (\n                I - Q1\n            )", "            Q2 = get_aggregate(cl, matrices, domain, I - Q1)"),
+                                            (_AG7, "        Q2 = get_aggregate(cl, matrices, domain) @ (\n            I - Q1\n        )", "        Q2 = get_aggregate(cl, matrices, domain, I - Q1)")])
+K('C09', 'public-total-solutions-rezipped-with-all-measurements', [(PI, "    variances = np.array([])\n    estimates = np.array([])\n    for Q, y, noise, proj in measurements:\n        o = np.ones(Q.shape[1])\n        v = lsmr(Q.T, o, atol=0, btol=0)[0]\n        if np.allclose(Q.T.dot(v), o):\n            variances = np.append(variances, noise**2 * np.dot(v, v))\n            estimates = np.append(estimates, np.dot(v, y))\n",
+                                                                    "    solved = [lsmr(Q.T, np.ones(Q.shape[1]), atol=0, btol=0)[0] for Q, y, noise, proj in measurements]\n    usable = [v for v, (Q, y, noise, proj) in zip(solved, measurements) if np.allclose(Q.T.dot(v), 1.0)]\n    variances = np.array([noise**2 * np.dot(v, v) for v, (Q, y, noise, proj) in zip(usable, measurements)])\n    estimates = np.array([np.dot(v, y) for v, (Q, y, noise, proj) in zip(usable, measurements)])\n")], 'same-system')
+T('C09', 'public-total-as-a-comprehension-pipeline', [(PI, "    variances = np.array([])\n    estimates = np.array([])\n    for Q, y, noise, proj in measurements:\n        o = np.ones(Q.shape[1])\n        v = lsmr(Q.T, o, atol=0, btol=0)[0]\n        if np.allclose(Q.T.dot(v), o):\n            variances = np.append(variances, noise**2 * np.dot(v, v))\n            estimates = np.append(estimates, np.dot(v, y))\n",
+                                                       "    solved = [(lsmr(Q.T, np.ones(Q.shape[1]), atol=0, btol=0)[0], Q, y, noise) for Q, y, noise, proj in measurements]\n    usable = [(v, y, noise) for v, Q, y, noise in solved if np.allclose(Q.T.dot(v), 1.0)]\n    variances = np.array([noise**2 * np.dot(v, v) for v, y, noise in usable])\n    estimates = np.array([np.dot(v, y) for v, y, noise in usable])\n")])
